@@ -117,7 +117,12 @@ class Evaluator:
         return None
 
     def _inline_target(self, cal, args=None):
-        if self.prog is None or self.inline is None:
+        if self.prog is None:
+            return None
+        if "indirect" in cal and getattr(self, "indirect_target", None) is not None:
+            # a call through a function pointer whose value the caller of the evaluation has resolved (`order_cmp(b, a)`)
+            return self.prog.fns.get(self.indirect_target)
+        if self.inline is None:
             return None
         t = self.prog.fns.get(cal.get("resolved") or cal.get("path"))
         if t is None:
@@ -303,6 +308,7 @@ class Evaluator:
                     sub = Evaluator(tgt, self.classify, self.relation, self.opaque_switch, self.max_steps, self.call_hook, self.prog, self.inline, self.depth + 1)
                     sub.trace = self.trace
                     sub.proj_hook = self.proj_hook
+                    sub.indirect_target = getattr(self, "indirect_target", None)
                     subenv = {i + 1: a for i, a in enumerate(args)}
                     if fork:
                         # the callee may branch on values this evaluation cannot decide: explore its paths, continue once per distinct outcome
